@@ -1147,6 +1147,47 @@ pub fn exhaustive<W: Write>(mode: &str, shard: usize, nshards: usize, out: &mut 
     }
 }
 
+/// Characters named by VERIF_EXTRA_CHARS (hex scalar values, space separated): literals that
+/// the constants translator found in the source but not in the model (e.g. a new prefix
+/// character).  When set, one generated case in three gets one of them substituted or
+/// inserted into one of its string arguments, also right after a line break: a search
+/// directed by the broken tie.  Unset on an unchanged tree.
+fn extra_chars() -> &'static Vec<char> {
+    static EXTRA: std::sync::OnceLock<Vec<char>> = std::sync::OnceLock::new();
+    EXTRA.get_or_init(|| {
+        std::env::var("VERIF_EXTRA_CHARS")
+            .unwrap_or_default()
+            .split_whitespace()
+            .filter_map(|h| u32::from_str_radix(h, 16).ok().and_then(char::from_u32))
+            .collect()
+    })
+}
+
+fn inject_extra_chars(mut f: Vec<String>, r: &mut Rng) -> Vec<String> {
+    let extra = extra_chars();
+    if extra.is_empty() || !r.chance(1, 3) {
+        return f;
+    }
+    let is_str = |x: &String| x == "_" || (!x.is_empty() && x.split('.').all(|h| !h.is_empty() && h.chars().all(|c| c.is_ascii_hexdigit() && !c.is_ascii_uppercase())));
+    let idxs: Vec<usize> = (1..f.len()).filter(|&i| is_str(&f[i]) && !f[i].chars().all(|c| c.is_ascii_digit())).collect();
+    if idxs.is_empty() {
+        return f;
+    }
+    let i = idxs[r.below(idxs.len())];
+    let mut cs: Vec<String> = if f[i] == "_" { Vec::new() } else { f[i].split('.').map(|x| x.to_string()).collect() };
+    let c = format!("{:x}", extra[r.below(extra.len())] as u32);
+    // positions: anywhere, with a preference for the start of a line
+    let starts: Vec<usize> = std::iter::once(0).chain(cs.iter().enumerate().filter(|(_, h)| h.as_str() == "a").map(|(k, _)| k + 1)).collect();
+    let pos = if r.chance(1, 2) { starts[r.below(starts.len())] } else { r.below(cs.len() + 1) };
+    if r.chance(1, 2) && pos < cs.len() {
+        cs[pos] = c;
+    } else {
+        cs.insert(pos, c);
+    }
+    f[i] = cs.join(".");
+    f
+}
+
 pub fn generate<W: Write>(mode: &str, r: &mut Rng, out: &mut W) {
     let f: Vec<String> = match mode {
         "dw" => {
@@ -1584,5 +1625,6 @@ pub fn generate<W: Write>(mode: &str, r: &mut Rng, out: &mut W) {
             std::process::exit(2);
         }
     };
+    let f = inject_extra_chars(f, r);
     emit(&f, out);
 }
